@@ -240,15 +240,19 @@ def validateCommit (pick : List Nat → Nat) (w : Nat) (vs : VoterSet) (c : Chai
       if s.stop then ⟨false, pcs.length, s.nDup, s.nEq, nInv⟩
       else ⟨ghostIsTarget pick w vs c s base tBlk tNum, pcs.length, s.nDup, s.nEq, nInv⟩
 
-/-- the modelling assumption on numbers: every member precommit carries the number of its block
-    counted from the round base -/
+/-- the modelling assumption on numbers.  The vote graph only ever sees the round base and the FIRST
+    precommit of every voter (a second, different precommit only marks the voter as an equivocator,
+    later ones are ignored), so exactly these must carry the number of their block counted from the
+    base.  The numbers of the other precommits matter through the choice of the base and through the
+    identity of a vote (hash, number), both of which the model follows literally. -/
 def consistent (w : Nat) (vs : VoterSet) (c : Chain) (pcs : List Pre) : Bool :=
   let vp := pcs.filter (fun p => vs.contains p.id)
   match minPre vp with
   | none => true
   | some base =>
     !(vp.all (fun p => desc c base.blk p.blk)) ||
-    vp.all (fun p => p.num == (base.num + dist c base.blk p.blk) % 2 ^ w)
+    ((vp.foldl (fun tr p => (addVote tr p).1) []).all
+      (fun t => t.first.num == (base.num + dist c base.blk t.first.blk) % 2 ^ w))
 
 /-! ## verifyWithVoterSet -/
 
